@@ -250,8 +250,8 @@ def run_analyse(c) -> CaseResult:
 
 CHECK = Check(
     id="C18",
-    parts=[Part("track", run, strategy=cases, budget={"quick": 320, "thorough": 4000}),
-           Part("analyse", run_analyse, strategy=analyse_cases, budget={"quick": 120, "thorough": 1500})],
+    parts=[Part("track", run, strategy=cases, budget={"quick": 320, "thorough": 16000}),
+           Part("analyse", run_analyse, strategy=analyse_cases, budget={"quick": 120, "thorough": 6000})],
     rule=("track: Hypothesis-generated modules (as C16 plus fan-out, integer/bool intermediates, cat/stack/rotate-half list consumers, "
           "keyword tensor arguments, index tensors, views/negations/*1.0, detached and integer outputs, 1-4 outputs, inputs with zeros), "
           "forward-only and forward+backward, optionally preceded by an earlier call of the same tracked module on other inputs (metrics must describe the last call). Oracle (a) the untracked module: outputs, parameter and input gradients bit-identical; "
